@@ -105,11 +105,26 @@ fn fixed_corpus() -> Vec<(&'static str, String)> {
         "register",
         "PREFIX : <http://test/> REGISTER RSTREAM <http://out/stream> AS SELECT * FROM NAMED WINDOW :wind ON ?s [RANGE 10 STEP 2] WHERE { WINDOW :wind { ?s a <http://www.w3.org/test/SuperType> . } }",
     ));
+    v.push(s("rule+update", "RULE :Derived :- CONSTRUCT { ?x <http://e/derived> <http://e/yes> . } WHERE { ?x <http://e/p0> ?y . } .\nINSERT DATA { <http://e/s0> <http://e/p0> <http://e/o1> }"));
+    v.push(s("rule+update", "PREFIX e: <http://e/> RULE :Derived :- CONSTRUCT { ?x e:derived e:yes . } WHERE { ?x e:p0 ?y . } .\nDELETE WHERE { ?s e:p0 ?o }"));
+    v.push(s("rule+select", "RULE :Derived :- CONSTRUCT { ?x <http://e/derived> <http://e/yes> . } WHERE { ?x <http://e/p0> ?y . } .\nSELECT ?s WHERE { ?s <http://e/p0> ?o }"));
+    v.push(s("retrieve+update", "RETRIEVE SOME ACTIVE STREAM ?st FROM <http://e/catalog> WITH { ?st a <http://e/Stream> . }\nINSERT { ?s <http://e/p1> ?o } WHERE { ?s <http://e/p0> ?o }"));
     v.push(s("garbage", "this is not sparql at all { ? } <"));
     v.push(s("garbage", ""));
     v.push(s("garbage", "SELECT"));
     v.push(s("garbage", "INSERT DATA { ?x <http://e/p0> <http://e/o0> } #€"));
     v
+}
+
+const EXTENSION_CLAUSES: [&str; 2] = [
+    "RULE :Derived :- CONSTRUCT { ?x <http://e/derived> <http://e/yes> . } WHERE { ?x <http://e/p0> ?y . } .\n",
+    "RETRIEVE SOME ACTIVE STREAM ?st FROM <http://e/catalog> WITH { ?st a <http://e/Stream> . }\n",
+];
+
+/// Put an extension clause in front of the request's operation keyword (after its PREFIX declarations).
+fn with_extension_clause(text: &str, which: u8) -> String {
+    let at = ["SELECT", "INSERT", "DELETE"].iter().filter_map(|k| text.find(k)).min().unwrap_or(0);
+    format!("{}{}{}", &text[..at], EXTENSION_CLAUSES[which as usize % EXTENSION_CLAUSES.len()], &text[at..])
 }
 
 fn kind_well_formed_select(kind: &str) -> bool {
@@ -127,6 +142,8 @@ fn check_case(c: &Case) -> Outcome {
         "gen-select" => "base:generated-select",
         "gen-update" => "base:generated-update",
         "gen-rejected" => "base:generated-rejected-update",
+        "gen-select+extension" => "base:extension-clause+select",
+        "gen-update+extension" => "base:extension-clause+update",
         _ => "base:fixed-corpus",
     });
     o.class_if(mutated, "mutated");
@@ -175,8 +192,17 @@ impl Part for Requests {
             }),
             2 => (dataset_strategy(8, 4), 0..n).prop_map(move |(d, i)| (d, corpus[i].1.clone(), format!("fixed-{}", corpus[i].0))),
         ];
-        (base, proptest::collection::vec(mutation(), 0..=3))
-            .prop_map(|((data, base, base_kind), muts)| Case { data, base, base_kind, muts })
+        // One generated request in six carries an extension clause (RULE definition / RETRIEVE clause) between its PREFIX
+        // declarations and its SELECT or update operation: still ONE request whose operation decides what it is.
+        (base, proptest::collection::vec(mutation(), 0..=3), 0u8..12)
+            .prop_map(|((data, base, base_kind), muts, ext)| {
+                let (base, base_kind) = if ext < 2 && (base_kind == "gen-select" || base_kind == "gen-update") {
+                    (with_extension_clause(&base, ext), format!("{base_kind}+extension"))
+                } else {
+                    (base, base_kind)
+                };
+                Case { data, base, base_kind, muts }
+            })
             .boxed()
     }
     fn check(&self, c: &Case) -> Outcome {
